@@ -115,6 +115,7 @@ gather (unsigned char out[8], const char in[64])
 }
 
 static struct crypt_data *cd_a, *cd_b, *cd_c;
+static int offsets_seen[16], n_offsets;
 
 static void
 one_pair (const unsigned char key[8], const unsigned char blk[8], int junk, int interleave, const char *cls)
@@ -374,7 +375,10 @@ cmd_api (long n)
   /* before this process has made any DES call itself */
   cold_trials (n >= 100000 ? 3000 : 400);
   printf ("CLS api concurrent-first-use\n");
-  cd_a = calloc (1, sizeof *cd_a); cd_b = calloc (1, sizeof *cd_b); cd_c = calloc (1, sizeof *cd_c);
+  /* struct crypt_data has character members only: an object may sit at any address (inside a packed record, at
+     an odd offset of a buffer).  The two re-entrant objects move through all 16 offsets during the run.  */
+  unsigned char *raw_a = calloc (1, sizeof *cd_a + 16), *raw_b = calloc (1, sizeof *cd_b + 16);
+  cd_a = (struct crypt_data *) raw_a; cd_b = (struct crypt_data *) raw_b; cd_c = calloc (1, sizeof *cd_c);
   unsigned char key[8], blk[8];
   /* all weight-1 and weight-63 keys x all weight-1 and weight-63 blocks */
   for (int kw = 0; kw < 128; kw++)
@@ -390,6 +394,14 @@ cmd_api (long n)
     {
       uint64_t a = rnd (), b = rnd ();
       memcpy (key, &a, 8); memcpy (blk, &b, 8);
+      if (i % 37 == 0)
+        {
+          unsigned off = (unsigned) (i / 37) & 15;
+          memset (raw_a, 0, sizeof *cd_a + 16); memset (raw_b, 0, sizeof *cd_b + 16);
+          cd_a = (struct crypt_data *) (raw_a + off);
+          cd_b = (struct crypt_data *) (raw_b + ((off * 7 + 3) & 15));
+          if (!offsets_seen[off]) { offsets_seen[off] = 1; n_offsets++; }
+        }
       one_pair (key, blk, (int) (i & 1), (i % 16) == 0 ? (int) (1 + (i & 16) / 16) : 0, "random");
     }
   for (long i = 0; i < 64; i++)
@@ -400,7 +412,8 @@ cmd_api (long n)
     }
   printf ("CLS api cross-thread-history\n");
   printf ("CLS api random\nCLS api interleaved\n");
-  printf ("STAT {\"comparisons\": %ld, \"grid_pairs\": 16384, \"random_pairs\": %ld}\n", n_cmp, n);
+  printf ("CLS api object-offsets-%d\n", n_offsets);
+  printf ("STAT {\"comparisons\": %ld, \"grid_pairs\": 16384, \"random_pairs\": %ld, \"object_offsets\": %d}\n", n_cmp, n, n_offsets);
   return n_viol ? 1 : 0;
 }
 #endif
